@@ -1,5 +1,6 @@
 import PacketVerif.Model.Dhcp4Srv
 import PacketVerif.Model.Dhcp4Frame
+import PacketVerif.Model.Dhcp4ReplyBytes
 namespace PV.Drv.Dhcp4Srv
 open PV PV.Model.Dhcp4Srv
 
@@ -167,7 +168,9 @@ def checkNew (n : NewCfg) (dump : String) : String :=
 /-! `dhcp.raw <cfgIdx> <mode> <setup> <ev>;<ev>… @ <now> <cfgdump> <pre> <pre>…` (harness/c08dhcp): every `<ev>` =
     `<c|s>:<IPv4 source>:<spare capacity>:<payload hex>` is one call of the real `ProcessPacket` on a frame carrying that
     payload (`c`: to port 67, `s`: to port 68) in a buffer with that many bytes behind the payload; `<pre>` is the state
-    the implementation was in (dumped after `Session.Parse` of the frame).  Reply: per event, what
+    the implementation was in (dumped after `Session.Parse` of the frame); optionally `# <ord> <ord>…`, per event the
+    option codes of the implementation's reply in wire order (`-`: none), then every group also ends with
+    ` bytes=<reply payload hex>` (`Model.Dhcp4Frame.replyBytes`).  Reply: per event, what
     `Model.Dhcp4Frame.processRaw` makes of the bytes from that state — returned error, cursors, lease table (sorted),
     replies, forged DECLINE (client direction) — joined by ` / `. -/
 
@@ -190,21 +193,43 @@ def showRaw (rx : Rx) (r : Result) : String :=
   let decl := if rx.dstPort == 68 then (if r.forged then "1" else "0") else "-"
   s!"ret={errStr r.ret} {r.state.next1},{r.state.next2}|{showList leases ";"}|{showReplies r.replies} decl={decl}"
 
+open PV.Model.Dhcp4Frame PV.Model.Dhcp4Opt in
+/-- `bytes=`: the reply frames of the event as `Model.Dhcp4Frame.replyBytes` writes them over the request payload in a
+    buffer of the event's capacity (spare bytes zero: the reply does not depend on them), parameter request list =
+    option 55 as parsed, map iteration order = `ord` (hex: the option codes of the implementation's reply in wire
+    order, repetitions dropped — the model emits each remaining option once, in that order) -/
+def showBytes (rx : Rx) (p : Bytes) (r : Result) (ord : String) : String :=
+  match parseOptions p, fromHex ord with
+  | .ok o, some t =>
+    showList (r.replies.map (fun rep =>
+      match replyBytes p (zeros (rx.cap - p.length)) (optGet o 55) rep t.eraseDups with
+      | .ok [] => "nil"
+      | .ok b => toHex b
+      | .err e => "err " ++ e.toString
+      | .panic => "panic"
+      | .hang => "hang")) ","
+  | _, _ => "bad-ord"
+
 open PV.Model.Dhcp4Frame in
-def rawGroups (cfg : Cfg) (now : Nat) : List String → List String → List String
-  | ev :: evs, pre :: pres =>
+def rawGroups (cfg : Cfg) (now : Nat) : List String → List String → List String → List String
+  | ev :: evs, pre :: pres, ords =>
     (match parseRawEv ev, parseState pre with
-     | some (rx, p), some s => outcomeStr (showRaw rx) (processRaw cfg s now rx p)
+     | some (rx, p), some s =>
+       outcomeStr (fun r => showRaw rx r ++ (match ords with
+                                             | ord :: _ => " bytes=" ++ showBytes rx p r ord
+                                             | [] => "")) (processRaw cfg s now rx p)
      | none, _ => "bad-ev"
-     | _, none => "bad-pre") :: rawGroups cfg now evs pres
-  | [], [] => []
-  | _, _ => ["bad-groups"]
+     | _, none => "bad-pre") :: rawGroups cfg now evs pres ords.tail
+  | [], [], _ => []
+  | _, _, _ => ["bad-groups"]
 
 def handle (cmd : String) (args : List String) : Option String :=
   match cmd, args with
   | "dhcp.raw", _ :: _ :: _ :: evs :: "@" :: now :: cfg :: pres =>
     match parseCfg cfg, nat? now with
-    | some cfg, some now => some (" / ".intercalate (rawGroups cfg now (evs.splitOn ";") pres))
+    | some cfg, some now =>
+      let (pres, ords) := pres.span (· != "#")
+      some (" / ".intercalate (rawGroups cfg now (evs.splitOn ";") pres ords.tail))
     | none, _ => some "bad-cfg"
     | _, none => some "bad-now"
   | "dhcp.raw", _ => some "bad-raw"
